@@ -357,6 +357,11 @@ def gen_case(rng, kind, quick, mode=None):
         for i in range(n):
             if rng.random() < 0.15:
                 d[i] = rng.choice([5.0, -5.0, 5.0 - 1 / 65536, -5.0 + 1 / 65536, 5.0 - 1 / 16384])
+    if mode == "exact" and rng.random() < 0.2:
+        # a design at which every objective is exactly 0 (dyadic arithmetic: the constant terms are shifted): a zero is a
+        # value like any other - the neighbours / displaced points are still evaluated and used
+        for o in objs:
+            o[0] -= poly(o, designs[0])
     if rng.random() < 0.2 and nd > 1:          # equal designs (distinct objects) inside a run
         designs[-1] = list(designs[0])
     signs = [rng.choice([1, 1, -1]) for _ in range(user)]
